@@ -282,7 +282,9 @@ pub fn ms(s: u64) -> u64 {
 
 /// Scenarios outside every Conn-sim check's domain (the shrinker may propose them).
 pub fn conn_domain_ok(sc: &ConnScenario) -> bool {
-    sc.cap_ns >= secs(60) && sc.cfg.client_addr.parse::<SocketAddr>().is_ok()
+    sc.cap_ns >= secs(60)
+        && sc.cfg.client_addr.parse::<SocketAddr>().is_ok()
+        && sc.services.filter_hostname.as_ref().is_none_or(|h| passage_adapters::filter::option::OptionFilterAdapter::new(Some(h.clone()), ()).is_ok())
 }
 
 /// Net-sim scenarios outside every check's domain (the shrinker may propose them).
